@@ -22,6 +22,8 @@ def interpreter(case: dict, stats: dict | None = None):
     with warnings.catch_warnings():
         if case.get("warnings_error"):
             warnings.simplefilter("error")
+            # (a ResourceWarning is issued from finalizers, where an exception is only printed: it would add noise, nothing else)
+            warnings.simplefilter("ignore", ResourceWarning)
             if stats is not None:
                 stats["cfg_warnings_as_errors"] = stats.get("cfg_warnings_as_errors", 0) + 1
         yield
